@@ -4,6 +4,7 @@ from __future__ import annotations
 import ast
 
 from ..amatch import AM
+from ..flow import expand
 from ..effects import FRESH, GLOBAL_STATE_CALLS, Effects
 from ..fold import Folder, Opaque, Raised, Refuse
 from ..report import AnalysisError
@@ -135,7 +136,8 @@ def rule_b(ctx, E):
     ctx.stat("inplace_metadata_writes", n)
     md = m.func(IMG, "Image.metadata")
     am = AM(md)
-    ok = any(am.has(md.node, t) is not None for t in ("return copy.copy(metadata)", "return dict(metadata)", "return copy.deepcopy(metadata)", "return metadata.copy()"))
+    rvs = [expand(md.node, r.value) for r in ast.walk(md.node) if isinstance(r, ast.Return) and r.value is not None]
+    ok = len(rvs) == 1 and (isinstance(rvs[0], ast.Dict) or (isinstance(rvs[0], ast.Call) and (norm(rvs[0].func) in ("copy.copy", "copy.deepcopy", "dict") or (isinstance(rvs[0].func, ast.Attribute) and rvs[0].func.attr == "copy"))))
     ctx.ob(R, md.qname, "metadata() returns a copy of the dict (values shared)", ok, str([norm(r.value) for r in ast.walk(md.node) if isinstance(r, ast.Return)]), md.node)
     ctx.instance(R)
     ctx.floor(R, 1)
